@@ -81,9 +81,50 @@ def generate(rng, tier):
                 lm = s.add("manual U CM 0x11050 %s S %d" % (regs, n))
                 s.meta[li] = {"twin": lm}
         out.append(("genericend-%s-%d" % (arch, w), s))
+    # the iterator over a scripted implementation of the public Unwinder trait: whatever unwind_frame answers, a null
+    # return address becomes Err(ReturnAddressIsNull), Ok(None) finishes for good, an Err is passed on and the same
+    # frame is asked again by the next call
+    for w in range(2 if tier == "quick" else 10):
+        s = Script("x86")
+        s.nomodel = True
+        for k in range(30):
+            answers = [rng.choice(["0x401000", "0x401000", hx(rng.u64() | 1), "0x1", "0x0", "none", "err"]) for _ in range(rng.range(0, 6))]
+            n = len(answers) + rng.range(1, 4)
+            via = rng.below(2)
+            pc = rng.choice([0x1000, 0, 1, M64])
+            ln = s.add("iterscript %s %d %d %s" % (hx(pc), n, via, " ".join(answers)), tag="scripted:%d" % via)
+            s.meta[ln] = {"scripted": answers, "n": n, "pc": pc}
+        out.append(("scripted-%d" % w, s))
     return out
 
 def judge(script, impl):
+    bad_scripted = []
+    for ln, m in script.meta.items():
+        if "scripted" not in m:
+            continue
+        line = impl.get(ln)
+        if line is None:
+            continue
+        got = [x.strip() for x in line[len("iterscript "):].split("|")]
+        exp = ["ok ip 0x%x" % m["pc"]]
+        ans = list(m["scripted"])
+        done = False
+        while len(exp) < m["n"]:
+            if done:
+                exp.append("ok none"); continue
+            a = ans.pop(0) if ans else "none"
+            if a == "none":
+                done = True; exp.append("ok none")
+            elif a == "err":
+                exp.append("err DidNotAdvance")
+            elif int(a, 16) == 0:
+                exp.append("err ReturnAddressIsNull")
+            else:
+                exp.append("ok ra 0x%x" % int(a, 16))
+        if got != exp:
+            bad_scripted.append((ln, "iterator over scripted unwind_frame answers %s: got %s, documented %s" % (m["scripted"], got, exp)))
+    if bad_scripted or any("scripted" in m for m in script.meta.values()):
+        return bad_scripted
     bad = []
     for ln, m in script.meta.items():
         if "twin" not in m:
